@@ -1,3 +1,3 @@
 -- GENERATED: translation FAILED
-#eval (throw (IO.userError "translator failed for VtkConsts: cell_type_id mapper changed") : IO Unit)
+#eval (throw (IO.userError "translator failed for VtkConsts: POINTS line of the writer not found") : IO Unit)
 translator_failed
